@@ -60,7 +60,9 @@ static void child_main(int me, const std::string &dir, int cache, int maxjobs, c
       tools::Property out;
       if (failRule && (me + job->getId()) % 4 == 0) {
         res.setStatus(Job::FAILED);
-        res.setError("f" + std::to_string(me));
+        // every other failing job reports an error text with XML metacharacters (exception texts name templates and paths):
+        // the job file must stay parseable and the text must come back as it was reported
+        res.setError("f" + std::to_string(me) + (job->getId() % 2 ? "<a&b>" : ""));
       } else {
         res.setStatus(Job::COMPLETE);
         out.add("output", "").add("by", std::to_string(me));
@@ -119,7 +121,12 @@ static std::string file_state_full(const std::string &file, const std::vector<pi
     for (Job &j : jobs) {
       std::string by = "-", err = "-", host = "-";
       if (j.hasOutput()) { try { by = j.getOutput().get("by").as<std::string>(); } catch (...) { by = "?"; } }
-      if (j.hasError()) err = j.getError();
+      if (j.hasError()) {
+        err = j.getError();
+        const std::string meta = "<a&b>";
+        if (j.getId() % 2 && err.size() > meta.size() && err.compare(err.size() - meta.size(), meta.size(), meta) == 0) err.erase(err.size() - meta.size());
+        for (char &ch : err) if (ch == ' ' || ch == ';' || ch == '\t' || ch == '\n') ch = '_';
+      }
       if (j.hasHost()) {
         host = j.getHost();
         if (host.rfind("old:", 0) != 0) {
